@@ -916,7 +916,8 @@ theorem withBounds_total (dataLen selfStart bStart bEnd : Int) (ok : Bool)
   unfold withBounds
   rw [ckUsize_ok (by arith), ckUsize_ok (by arith)]; simp
 
-/-- outside that guard the addition overflows (direct host call with `usize::MAX`) -/
+/-- outside that guard the addition overflows (`usize::MAX`); both callers now test the request
+against the slice's own length first (`stringWithBounds`, `tupleWithBounds`) -/
 theorem withBounds_panic_witness : withBounds 6 1 0 18446744073709551615 true = .panic := by decide
 
 /-- a successful `with_bounds` stays inside the data -/
@@ -936,6 +937,42 @@ theorem withBounds_in_data (dataLen selfStart bStart bEnd : Int) (ok : Bool) (a 
       split at h
       · rename_i hc; cases h; exact ⟨hc.1, hc.2.1⟩
       · cases h
+
+/-- **current code** (a83c277): `TupleSlice::with_bounds` never panics, for ANY usize bounds of the slice
+and of the request (no assumption that they are real lengths): the guard bounds the sums by the
+slice's own end -/
+theorem tupleWithBounds_total (dataLen selfStart selfEnd bStart bEnd : Int)
+    (hs : inUsize selfStart) (he : inUsize selfEnd) (ha : inUsize bStart) (hb : inUsize bEnd) :
+    tupleWithBounds dataLen selfStart selfEnd bStart bEnd ≠ .panic := by
+  unfold tupleWithBounds
+  split
+  · simp
+  · rename_i hg
+    unfold withBounds
+    unfold inUsize at *
+    rw [ckUsize_ok (by unfold inUsize; omega), ckUsize_ok (by unfold inUsize; omega)]; simp
+
+/-- … and a successful result lies inside the slice it was taken from and inside the data -/
+theorem tupleWithBounds_in_slice (dataLen selfStart selfEnd bStart bEnd : Int) (a b : Int)
+    (hs : inUsize selfStart) (he : inUsize selfEnd) (hse : selfStart ≤ selfEnd) (ha : inUsize bStart) (hb : inUsize bEnd)
+    (h : tupleWithBounds dataLen selfStart selfEnd bStart bEnd = .ok (some (a, b))) :
+    selfStart ≤ a ∧ a ≤ b ∧ b ≤ selfEnd ∧ b ≤ dataLen := by
+  unfold tupleWithBounds at h
+  split at h
+  · cases h
+  · rename_i hg
+    have hin := withBounds_in_data dataLen selfStart bStart bEnd true a b h
+    unfold withBounds at h
+    unfold inUsize at *
+    rw [ckUsize_ok (by unfold inUsize; omega), ckUsize_ok (by unfold inUsize; omega)] at h
+    simp only [bind_ok] at h
+    split at h
+    · cases h; exact ⟨by omega, hin.1, by omega, hin.2⟩
+    · cases h
+
+example : tupleWithBounds 6 1 5 0 18446744073709551615 = .ok none := by decide
+example : tupleWithBounds 6 1 5 0 5 = .ok none := by decide
+example : tupleWithBounds 6 1 5 1 4 = .ok (some (2, 5)) := by decide
 
 /-- `StringSlice::with_bounds` (42b084b): total for real lengths, and a successful result stays
 inside the slice it was taken from (not merely inside the shared data) -/
